@@ -83,11 +83,14 @@ def build_env(tape_ref, max_fail, patches=None):
             raise IOError('locked')
 
     def s_stat(path):
-        outs = ['same', 'diff'] if fails['n'] < max_fail else ['same']
+        outs = ['same', 'diff', 'gone'] if fails['n'] < max_fail else ['same']
         o = tape_ref[0].choose('stat', outs)
         if o == 'diff':
             fails['n'] += 1
             return NS(st_ino=2)
+        if o == 'gone':
+            fails['n'] += 1
+            raise OSError(2, 'No such file or directory')
         return NS(st_ino=1)
     lf.__dict__['__builtins__']['open'] = s_open
     lf.fcntl = NS(flock=s_flock, LOCK_EX=2, LOCK_NB=4)
